@@ -190,6 +190,23 @@ def run(ctx) -> None:
     shut_tests = match.test_nodes(cfg, lambda t: "T" if isinstance(t, ast.Name) and t.id == PSHUT else None)
     agg_tests = match.test_nodes(cfg, lambda t: "T" if isinstance(t, ast.Name) and t.id == ISAGG else None)
     ctx.require(bool(agg_tests), "anchor missing: is_aggregate test in _schedule")
+    # whether a component aggregates is a fact of its OWN specification (isAggregating / isAggregatingLoopedNodes / workflowAttributes
+    # 'aggregate'): an operand that looks at the producers - "reads from more than one replicating producer" - puts a non-aggregating
+    # consumer under the aggregators' rule, and it is launched although one of its producers was shut down (seed C01-14)
+    for v in match.assigned_value(sched, ISAGG):
+        operands = list(v.values) if isinstance(v, ast.BoolOp) and isinstance(v.op, ast.Or) else [v]
+        foreign = []
+        for o in operands:
+            own = (isinstance(o, ast.Attribute) and o.attr in ("isAggregating", "isAggregatingLoopedNodes")) or (
+                "aggregate" in source.src(o) and "workflowAttributes" in source.src(o) and DEPS not in source.names_in(o))
+            if not own or DEPS in source.names_in(o):
+                foreign.append(o)
+        ctx.ob("C01.R3-failed-shutdown-producers", v, not foreign,
+               "is_aggregate is read off the component's own specification" if not foreign else
+               "is_aggregate also holds when %s - a condition on the PRODUCERS, not a property of the component: a non-aggregating consumer "
+               "of two replicated producers is treated as an aggregator ('shut down only if all replicated inputs are'), so with one producer "
+               "SHUTDOWN and the other FINISHED it is launched" % short(foreign[0], 70),
+               construct="is_aggregate <- the component's own specification only")
     # the lists tested must be what their names say
     observed_ok = _finish_veto_holds(ctl)
     _check_state_list(ctx, sched, PFAILED, "FAILED_STATE", "C01.R3-failed-shutdown-producers", DEPS, observed_ok)
